@@ -66,7 +66,7 @@ def check(R, F):
     for b, blk in enumerate(ip.blocks):
         for st in blk['stmts']:
             if st['k'] == 'assign' and not st['lhs']['p'] and st['lhs']['l'] == 0:
-                rets[tuple(paths.dom_guards(ip, b))] = paths.show_operand(ip, {'k': 'copy', 'pl': {'l': 0, 'p': [], 'ty': ''}}) if False else (paths.show_operand(ip, st['rv']['op']) if st['rv']['k'] in ('use', 'cast') else '%s(%s,%s)' % (st['rv']['op'], paths.show_operand(ip, st['rv']['a']), paths.show_operand(ip, st['rv']['b'])))
+                rets[tuple(paths.dom_guards(ip, b, variants=False))] = paths.show_operand(ip, {'k': 'copy', 'pl': {'l': 0, 'p': [], 'ty': ''}}) if False else (paths.show_operand(ip, st['rv']['op']) if st['rv']['k'] in ('use', 'cast') else '%s(%s,%s)' % (st['rv']['op'], paths.show_operand(ip, st['rv']['a']), paths.show_operand(ip, st['rv']['b'])))
     v4 = [v for g, v in rets.items() if any('in [0]' in x and 'discr(arg2)' in x for x in g)]
     v6 = [v for g, v in rets.items() if any('in [1]' in x and 'discr(arg2)' in x for x in g)]
     R.require(v4 == ['BitAnd(ip_addr::from(arg2@V4.0),arg1.params.ipv4_netmask)'], 'mask', 'server::rrl::Rrl::ip_to_dest_u64|v4', ip.where(), 'IPv4: u32(addr) & ipv4_netmask', 'IPv4 destination is computed as %s' % v4)
@@ -75,7 +75,7 @@ def check(R, F):
     for name, width, field, mx in (('set_ipv4_prefix_len', 32, 'ipv4_netmask', 'u32::MAX'), ('set_ipv6_prefix_len', 64, 'ipv6_netmask', 'u64::MAX')):
         fn = F.fn('server::rrl::RrlParams::' + name)
         ws = [(b, st) for b, blk in enumerate(fn.blocks) for st in blk['stmts'] if st['k'] == 'assign' and st['lhs']['p'] and st['lhs']['p'][-1].get('n') == field]
-        vals = sorted((paths.show_operand(fn, st['rv']['op']) if st['rv']['k'] == 'use' else '%s(%s,%s)' % (st['rv']['op'], paths.show_operand(fn, st['rv']['a']), paths.show_operand(fn, st['rv']['b'])), tuple(paths.dom_guards(fn, b))) for b, st in ws)
+        vals = sorted((paths.show_operand(fn, st['rv']['op']) if st['rv']['k'] == 'use' else '%s(%s,%s)' % (st['rv']['op'], paths.show_operand(fn, st['rv']['a']), paths.show_operand(fn, st['rv']['b'])), tuple(paths.dom_guards(fn, b, variants=False))) for b, st in ws)
         exprs = [v[0] for v in vals]
         want_shift = 'Shl(%s,Sub(%d_u8,arg2))' % (mx, width)
         ok = len(vals) == 2 and any(e.startswith('0_') for e in exprs) and want_shift in exprs
@@ -102,7 +102,7 @@ def check(R, F):
                 if ip_:
                     isd = ri.single_def(ip_[0]['idx'])
                     idx.append(const_int(isd[3]['rv']['op']) if isd and isd[3]['rv']['k'] == 'use' else None)
-        g = paths.dom_guards(ri, b)
+        g = paths.dom_guards(ri, b, variants=False)
         cond_all = any('::all(' in x and 'Ipv6Addr::octets(' in x and 'ops::Range{0_usize,10_usize}' in x and x.endswith(' not in [0]') for x in g)
         eq_ff = [x for x in g if re.match(r'^Eq\(Ipv6Addr::octets\(arg1@V6\.0\)\[_\],(u8::MAX|255_u8)\) not in \[0\]$', x)]
         ok = idx == [12, 13, 14, 15] and cond_all and len(eq_ff) == 2
